@@ -29,6 +29,9 @@
     * chunkqueue_to_tempfiles() must release what is left of its private copy of
       the queue on success, too (trailing 0-length chunks: a temp file and a
       descriptor would leak)                             (toTempfilesWith)
+    * a partial steal / range copy of a temp chunk whose descriptor is closed
+      must open the temp file for the copy: otherwise the copied bytes become
+      unreadable once the owner unlinks the file          (dupFd)
 
   Core Lean only: this file is linked into the driver `ltm_cq`.
 -/
@@ -145,6 +148,7 @@ structure World where
   pool : List Nat := []         -- chunks_oversized: mem->size of each, descending
   files : Nat → File := fun _ => {}
   nfiles : Nat := 0
+  nsrc : Nat := 0               -- files 0..nsrc-1 exist independently of the queues (never unlinked)
   wsched : List WFault := []    -- results of the next write calls (then: ok)
   msched : List Bool := []      -- next mkostemp calls: true = fails (then: ok)
 
@@ -422,13 +426,21 @@ def compactMem (w : World) (q : Cq) (clen : Nat) : World × Cq :=
 
 /-! ## steal -/
 
+/-- chunkqueue_dup_file_chunk_fd(): the descriptor of a chunk that duplicates
+    (part of) a file chunk: an open descriptor is dup()ed; for a closed temp
+    chunk the temp file is opened for reading (its name exists as long as the
+    owning chunk, which is the one being copied, does) -/
+def dupFd (isTemp : Bool) (fd : Fd) : Fd :=
+  if fd.isOpen then fd else if isTemp then .ro else .none
+
 /-- partial copy of the first `n` bytes of chunk `c` into dest -/
 def stealPartial (w : World) (dest : Cq) (c : Chunk) (n : Nat) : World × Cq :=
   match c with
   | .mem d off _ => appendMem w dest ((d.drop off).take n)
-  | .file fid off _ _ fd =>
+  | .file fid off _ t fd =>
     if n > 0 then
-      ((if fd.isOpen then w.openFd fid else w), pushChunk dest (.file fid off (off + n) false fd) n)
+      ((if (dupFd t fd).isOpen then w.openFd fid else w),
+       pushChunk dest (.file fid off (off + n) false (dupFd t fd)) n)
     else (w, dest)
 
 /-- a complete chunk moves to dest; an empty one is dropped -/
@@ -545,8 +557,8 @@ def dropOrCloseLast (w : World) (q : Cq) : World × Cq :=
   | some c =>
     if c.rem = 0 then removeEmpty w q
     else match c with
-      | .file fid off len t fd =>
-        if fd.isOpen then (w.closeFd fid, { q with chunks := setLast q.chunks (.file fid off len t .none) })
+      | .file fid off len true fd =>     -- (always the temp chunk get_append_tempfile returned)
+        if fd.isOpen then (w.closeFd fid, { q with chunks := setLast q.chunks (.file fid off len true .none) })
         else (w, q)
       | _ => (w, q)
   | none => (w, q)
@@ -819,9 +831,9 @@ def readSquash (w : World) (q : Cq) : World × Cq × Bool :=
     `off` into the chunk are duplicated onto dst -/
 def copyRange (w : World) (dst : Cq) (c : Chunk) (off n : Nat) : World × Cq :=
   match c with
-  | .file fid coff _ _ fd =>
-    ((if fd.isOpen then w.openFd fid else w),
-     pushChunk dst (.file fid (coff + off) (coff + off + n) false fd) n)
+  | .file fid coff _ t fd =>
+    ((if (dupFd t fd).isOpen then w.openFd fid else w),
+     pushChunk dst (.file fid (coff + off) (coff + off + n) false (dupFd t fd)) n)
   | .mem d coff _ => appendMem w dst ((d.drop (coff + off)).take n)
 
 /-- the copy loop of chunkqueue_append_cq_range() over (a snapshot of) the
